@@ -177,6 +177,96 @@ theorem register_drop_floor_low_bits (reg : Fmt) (p : ℤ) (k : ℕ) :
     rw [← h]; exact Int.emod_emod_of_dvd _ (dvd_refl _)
   rw [h2]
 
+/-! integer-only forms of `ROUND(p / 2^k)` for the other rounding rules (what a hardware rounder computes from the bits of `p`) -/
+
+/-- ceil: `⌈p/2^k⌉ = -((-p) >>> k)`. -/
+theorem ceil_drop (p : ℤ) (k : ℕ) : ⌈(p:ℚ) / ((2 ^ k : ℕ) : ℚ)⌉ = -((-p) / 2 ^ k) := by
+  have h := floor_drop (-p) k
+  rw [← h]
+  have : ((-p : ℤ) : ℚ) / ((2 ^ k : ℕ) : ℚ) = -((p:ℚ) / ((2 ^ k : ℕ) : ℚ)) := by push_cast; ring
+  rw [this, Int.floor_neg, neg_neg]
+
+theorem register_drop_ceil (reg : Fmt) (p : ℤ) (k : ℕ) :
+    quantize reg .ceil .wrap (scale (p:ℚ) (-(reg.nfrac + k))) = wrap reg (-((-p) / 2 ^ k)) := by
+  rw [register_drop, roundR_ceil, ceil_drop]
+
+/-- trunc / fix: toward zero — the floor shift for `p ≥ 0`, the ceil shift for `p < 0` (`Int.tdiv`). -/
+theorem trunc_drop (p : ℤ) (k : ℕ) :
+    roundR .trunc ((p:ℚ) / ((2 ^ k : ℕ) : ℚ)) = if p < 0 then -((-p) / 2 ^ k) else p / 2 ^ k := by
+  rw [roundR_trunc]
+  have hpos : (0:ℚ) < ((2 ^ k : ℕ) : ℚ) := by positivity
+  have hiff : (p:ℚ) / ((2 ^ k : ℕ) : ℚ) < 0 ↔ p < 0 := by
+    rw [div_lt_iff₀ hpos, zero_mul]; exact_mod_cast Iff.rfl
+  by_cases hp : p < 0
+  · rw [if_pos (hiff.mpr hp), if_pos hp, ceil_drop]
+  · rw [if_neg (fun h => hp (hiff.mp h)), if_neg hp, floor_drop]
+
+theorem register_drop_trunc (reg : Fmt) (p : ℤ) (k : ℕ) :
+    quantize reg .trunc .wrap (scale (p:ℚ) (-(reg.nfrac + k))) = wrap reg (if p < 0 then -((-p) / 2 ^ k) else p / 2 ^ k) := by
+  rw [register_drop, trunc_drop]
+
+/-- around (nearest, ties to the even code) from the quotient `q = p >>> k` and the dropped bits `r = p mod 2^k`:
+one is added when the dropped bits exceed half an LSB, or equal it and `q` is odd. -/
+theorem around_drop (p : ℤ) (k : ℕ) (hk : 1 ≤ k) :
+    roundR .around ((p:ℚ) / ((2 ^ k : ℕ) : ℚ)) =
+      p / 2 ^ k + (if 2 ^ (k - 1) < p % 2 ^ k ∨ (p % 2 ^ k = 2 ^ (k - 1) ∧ (p / 2 ^ k) % 2 = 1) then 1 else 0) := by
+  show roundHalfEven _ = _
+  set x : ℚ := (p:ℚ) / ((2 ^ k : ℕ) : ℚ) with hx
+  have hfl : ⌊x⌋ = p / 2 ^ k := floor_drop p k
+  have hB : (0:ℤ) < 2 ^ k := by positivity
+  have hBq : (0:ℚ) < ((2 ^ k : ℕ) : ℚ) := by positivity
+  have hsplit : (2:ℤ) ^ k = 2 * 2 ^ (k - 1) := by
+    conv_lhs => rw [show k = (k - 1) + 1 by omega]
+    rw [pow_succ]; ring
+  -- the fractional part is r / 2^k
+  have hd : x - ((⌊x⌋ : ℤ) : ℚ) = ((p % 2 ^ k : ℤ) : ℚ) / ((2 ^ k : ℕ) : ℚ) := by
+    rw [hfl, hx]
+    have hdm : p = 2 ^ k * (p / 2 ^ k) + p % 2 ^ k := (Int.mul_ediv_add_emod p (2 ^ k)).symm
+    have : (p:ℚ) = ((2 ^ k : ℕ) : ℚ) * ((p / 2 ^ k : ℤ) : ℚ) + ((p % 2 ^ k : ℤ) : ℚ) := by
+      have := congrArg (fun z : ℤ => (z:ℚ)) hdm
+      push_cast at this ⊢; exact this
+    field_simp
+    linarith
+  set r : ℤ := p % 2 ^ k with hr
+  set q : ℤ := p / 2 ^ k with hq
+  set H : ℤ := 2 ^ (k - 1) with hH
+  have hr0 : 0 ≤ r := Int.emod_nonneg p (ne_of_gt hB)
+  have hr1 : r < 2 ^ k := Int.emod_lt_of_pos p hB
+  have hcastB : ((2 ^ k : ℕ) : ℚ) = 2 * (H:ℚ) := by
+    have h2 : ((2:ℤ) ^ k : ℤ) = 2 * H := hsplit
+    have := congrArg (fun z : ℤ => (z:ℚ)) h2
+    push_cast at this ⊢; exact this
+  have hHpos : (0:ℚ) < (H:ℚ) := by rw [hH]; positivity
+  -- compare r/2^k with 1/2  ⇔  compare r with H
+  have lt_iff : (r:ℚ) / ((2 ^ k : ℕ) : ℚ) < 1/2 ↔ r < H := by
+    rw [hcastB, div_lt_iff₀ (by linarith)]
+    constructor
+    · intro h; have : (r:ℚ) < (H:ℚ) := by linarith
+      exact_mod_cast this
+    · intro h; have : (r:ℚ) < (H:ℚ) := by exact_mod_cast h
+      linarith
+  have gt_iff : 1/2 < (r:ℚ) / ((2 ^ k : ℕ) : ℚ) ↔ H < r := by
+    rw [hcastB, lt_div_iff₀ (by linarith)]
+    constructor
+    · intro h; have : (H:ℚ) < (r:ℚ) := by linarith
+      exact_mod_cast this
+    · intro h; have : (H:ℚ) < (r:ℚ) := by exact_mod_cast h
+      linarith
+  rcases lt_trichotomy r H with hlt | heq | hgt
+  · rw [roundHalfEven_of_lt x (by rw [hd]; exact lt_iff.mpr hlt), hfl, if_neg (by omega)]; simp
+  · have htie : x - ((⌊x⌋ : ℤ) : ℚ) = 1/2 := by
+      rw [hd, heq, hcastB]; field_simp
+    rw [roundHalfEven_of_tie x htie, hfl]
+    by_cases hodd : q % 2 = 1
+    · rw [if_neg (by omega), if_pos (Or.inr ⟨heq, hodd⟩)]
+    · rw [if_pos (by omega), if_neg (by omega)]; simp
+  · rw [roundHalfEven_of_gt x (by rw [hd]; exact gt_iff.mpr hgt), hfl, if_pos (Or.inl hgt)]
+
+theorem register_drop_around (reg : Fmt) (p : ℤ) (k : ℕ) (hk : 1 ≤ k) :
+    quantize reg .around .wrap (scale (p:ℚ) (-(reg.nfrac + k))) =
+      wrap reg (p / 2 ^ k + (if 2 ^ (k - 1) < p % 2 ^ k ∨ (p % 2 ^ k = 2 ^ (k - 1) ∧ (p / 2 ^ k) % 2 = 1) then 1 else 0)) := by
+  rw [register_drop, around_drop p k hk]
+
 /-- the canonical multiply `s32/16 · s32/16 → s32/16` (wrap, floor): codes `a`, `b` give `((a·b) >>> 16)` in 32 bits. -/
 theorem q16_16_multiply (a b : ℤ) :
     quantize ⟨true, 32, 16⟩ .floor .wrap (valueOf ⟨true, 32, 16⟩ a * valueOf ⟨true, 32, 16⟩ b) = wrap ⟨true, 32, 16⟩ ((a * b) / 2 ^ 16) := by
